@@ -296,8 +296,10 @@ class FakeDF:
     def copy(self):
         return FakeDF({k: (v.copy()) for k, v in self.cols.items()}, index=None if self._index is None else self._index.copy())
 
-    def groupby(self, by):
-        return _GroupBy(self, by)
+    def groupby(self, by, sort=True, **kw):
+        if kw:
+            raise Unsupported(f"groupby options {sorted(kw)}")
+        return _GroupBy(self, by, sort=sort)
 
     def sort_values(self, by, inplace=False, ascending=True, kind=None, **kw):
         """stable sort by the listed columns (first = primary); symbolic keys fork through the lexsort model"""
@@ -344,24 +346,24 @@ class NamedAgg:
 
 
 class _GroupBy:
-    def __init__(self, df, by):
-        self.df, self.by = df, by
+    def __init__(self, df, by, sort=True):
+        self.df, self.by, self.sort = df, by, sort
 
     def _groups(self):
-        col = self.df.cols[self.by]
+        col = self.df.cols[self.by] if isinstance(self.by, str) else (self.by.values if isinstance(self.by, FakeSeries) else np.asarray(self.by) if not isinstance(self.by, np.ndarray) else self.by)
         keys = arrays.concretize_values(np.asarray(arrays._plain(col), dtype=object)) if arrays.has_sym(col) else np.asarray(col)
         keys = [k.item() if isinstance(k, np.generic) else k for k in keys.tolist()]
         out = {}
         for pos, k in enumerate(keys):
             out.setdefault(k, []).append(pos)
-        return sorted(out.items())
+        return sorted(out.items()) if self.sort else list(out.items())      # sort=False: groups in order of first appearance
 
     def aggregate(self, func=None, **named):
         """groupby(col).aggregate(name=NamedAgg(column, 'count'|'min'|'max'|'sum'|'mean'), ...) or aggregate('mean'): one row per
         group label in ascending order, indexed by the label"""
         groups = self._groups()
         if func is not None and not named:
-            named = {c: NamedAgg(c, func) for c in self.df.cols if c != self.by}
+            named = {c: NamedAgg(c, func) for c in self.df.cols if not (isinstance(self.by, str) and c == self.by)}
         res = {}
         for name, agg in named.items():
             col = self.df.cols[agg.column]
